@@ -265,6 +265,8 @@ impl Sim {
             "tsi": capv(self.k.ticks_since_idle),
             "nwfi": self.k.waiting_for_idle.len(),
             "nvpr": self.k.vkeys_pending_release.len(),
+            // chords v2 reports idle (no queued input, no active chord); true without defchordsv2 (C01 diagnosis)
+            "chv2i": l.chords_v2.as_ref().map(|c| c.is_idle_chv2()).unwrap_or(true),
             // defseq sequence mode (SeqMode.tla SqProj)
             "sq": {
                 "act": self.k.sequence_state.is_active(),
